@@ -1,6 +1,6 @@
 #!/bin/bash
 # confirm_refactoring.sh <ID> <k>: in a fresh scratch worktree of /repo (removed afterwards): the patch applies, the unedited
-# suite passes with it, and same.py prints the same before and after.  Result: /tmp/confirm/R<ID>_<k>.json
+# suite passes with it, and same.py prints the same (on stdout; tracebacks that worker processes write to stderr name source lines) before and after.  Result: /tmp/confirm/R<ID>_<k>.json
 ID=$1; K=$2
 D=/verif/refactorings/${ID}-$K
 W=/tmp/confirm/R${ID}_$K
@@ -9,9 +9,9 @@ git -C /repo worktree remove --force $W >/dev/null 2>&1
 git -C /repo worktree add --detach $W HEAD >/dev/null 2>&1 || exit 1
 cd $W
 mkdir -p out && cp $D/same.py out/same.py
-BEFORE=$(PYTHONPATH=$W timeout 900 /venv/bin/python out/same.py 2>&1 | grep -v "Warning\|get_logger\|__init__.py" | md5sum)
+BEFORE=$(PYTHONPATH=$W timeout 900 /venv/bin/python out/same.py 2>/dev/null | grep -v "Warning\|get_logger\|__init__.py" | sed -E "s/, line [0-9]+, in /, line N, in /" | md5sum)
 git apply $D/patch.diff 2>/dev/null || { echo "{\"id\":\"$ID\",\"k\":$K,\"error\":\"patch\"}" > /tmp/confirm/R${ID}_$K.json; cd /; git -C /repo worktree remove --force $W; exit 1; }
-AFTER=$(PYTHONPATH=$W timeout 900 /venv/bin/python out/same.py 2>&1 | grep -v "Warning\|get_logger\|__init__.py" | md5sum)
+AFTER=$(PYTHONPATH=$W timeout 900 /venv/bin/python out/same.py 2>/dev/null | grep -v "Warning\|get_logger\|__init__.py" | sed -E "s/, line [0-9]+, in /, line N, in /" | md5sum)
 TESTS=$(timeout 3000 /venv/bin/python -m pytest -q -p no:cacheprovider --timeout=900 --continue-on-collection-errors 2>&1 | tail -1)
 echo "{\"id\":\"$ID\",\"k\":$K,\"same\":\"$([ "$BEFORE" == "$AFTER" ] && echo yes || echo no)\",\"tests\":\"$TESTS\"}" > /tmp/confirm/R${ID}_$K.json
 cd /
